@@ -162,8 +162,10 @@ def property_from_data(  # noqa: PLR0911, PLR0912
         )
 
     sub_data: list[oai.Schema | oai.Reference] = data.allOf + data.anyOf + data.oneOf
-    # A union of a single reference should just be passed through to that reference (don't create copy class)
-    if len(sub_data) == 1 and isinstance(sub_data[0], oai.Reference):
+    # A union of a single reference should just be passed through to that reference (don't create copy class),
+    # unless the schema adds something of its own to what it references
+    adds_to_reference = bool(data.properties or data.required or data.additionalProperties is not None)
+    if len(sub_data) == 1 and isinstance(sub_data[0], oai.Reference) and not adds_to_reference:
         prop, schemas = _property_from_ref(
             name=name,
             required=required,
